@@ -12,6 +12,7 @@ from . import expr as X
 from . import cond as C
 from .facts import AnalysisBroken
 from .rules_c03 import structural_guards
+from . import rules_c06
 
 MANIP_TYPES = ("_Setw", "_Setprecision", "_Setfill", "_Setiosflags", "_Setbase")
 
@@ -264,3 +265,4 @@ def run(F, rep, tier):
     r1_r2(F, rep)
     r3(F, rep)
     r4(F, rep)
+    rules_c06.r6(F, rep, "C19-R5")   # the W_ trajectory column stops growing when the schedule ends
